@@ -298,17 +298,12 @@ def run(ctx):
                 exc = H2_EXC[crate]
                 if isinstance(exc, str):
                     # BIP-340 tagged hash: SHA256(SHA256(tag)||SHA256(tag)||m)
-                    th = [s for s in subterms(t) if s[0] == "mut" and is_call(s[1], name="tagged_hash")]
-                    good = len(th) == 1 and th[0][1][2][0] == ("const", "&str", '"%s"' % exc) and \
-                        [o[1] for o in th[0][2]] == ["update"] and th[0][2][0][2] == (("arg", 1),)
-                    tg = P.fns.get(crate + "::tagged_hash")
-                    if tg:
-                        tt = FnView.get(P, tg).cx.local(0)
-                        inner = lambda x: is_call(x, name="finalize") and x[2][0][0] == "mut" and [o[1] for o in x[2][0][2]] == ["update"] and \
-                            is_call(x[2][0][2][0][2][0], name="as_bytes") and x[2][0][2][0][2][0][2][0] == ("arg", 1)
-                        good = good and tt[0] == "mut" and [o[1] for o in tt[2]] == ["update", "update"] and all(inner(o[2][0]) for o in tt[2])
-                    else:
-                        good = False
+                    from ..hashes import hasher_nf
+                    chain, nf = find_digest(P, t)
+                    tagd = lambda p_: (lambda d: d is not None and d["algo"] == "sha2::Sha256" and len(d["parts"]) == 1 and
+                                       is_call(d["parts"][0], name="as_bytes") and d["parts"][0][2][0] == ("const", "&str", '"%s"' % exc))(digest_nf(P, p_))
+                    good = nf is not None and nf["algo"] == "sha2::Sha256" and len(nf["parts"]) == 3 and tagd(nf["parts"][0]) and \
+                        tagd(nf["parts"][1]) and nf["parts"][2] == ("arg", 1)
                     ctx.check(good, "SEQ", key, "BIP340-tagged-hash(challenge)",
                               "BIP-340: e = SHA256(SHA256(tag)||SHA256(tag)||m) with tag \"%s\": %s" % (exc, fmt(t)[:160]), f.loc)
                     continue
